@@ -15,7 +15,11 @@ var MsgSuffix string
 // ErrShape varies how the scripted failures are built (set per behaviour by sequential drivers only):
 // "" = plain SMTPError; "421" = temporary failures carry the code 421 (service shutting down) instead of
 // 451; "nested" = the error wraps another annotated error with DIFFERENT SMTP fields (the shape
-// target.remote builds when every MX failed): the outer error is the one that counts.
+// target.remote builds when every MX failed): the outer error is the one that counts;
+// "noenh" = the failure carries a basic reply code and a text but NO enhanced status code (what a next hop
+// without ENHANCEDSTATUSCODES produces, or a module that fills only Code/Message);
+// "fields" = not an SMTPError at all: an ordinary error annotated with exterrors.WithFields (smtp_code,
+// smtp_enchcode, smtp_msg) and an explicit temporary/permanent marker, the way policy code builds failures.
 var ErrShape string
 
 // ErrFor returns an error value of the given class: "ok" (nil), "temp",
@@ -24,6 +28,24 @@ func ErrFor(res, where string) error {
 	switch res {
 	case "", "ok":
 		return nil
+	}
+	if ErrShape == "noenh" && (res == "temp" || res == "perm") {
+		e := &exterrors.SMTPError{Code: 451, Message: "scripted temporary failure at " + where + MsgSuffix, TargetName: "scripted"}
+		if res == "perm" {
+			e.Code, e.Message = 550, "scripted permanent failure at "+where+MsgSuffix
+		}
+		return e
+	}
+	if ErrShape == "fields" && (res == "temp" || res == "perm") {
+		f := map[string]interface{}{"smtp_code": 451, "smtp_enchcode": exterrors.EnhancedCode{4, 3, 0},
+			"smtp_msg": "scripted temporary failure at " + where + MsgSuffix, "target": "scripted"}
+		if res == "perm" {
+			f["smtp_code"], f["smtp_enchcode"] = 550, exterrors.EnhancedCode{5, 1, 1}
+			f["smtp_msg"] = "scripted permanent failure at " + where + MsgSuffix
+		}
+		return exterrors.WithTemporary(exterrors.WithFields(errors.New("scripted annotated failure at "+where), f), res == "temp")
+	}
+	switch res {
 	case "temp":
 		e := &exterrors.SMTPError{Code: 451, EnhancedCode: exterrors.EnhancedCode{4, 3, 0},
 			Message: "scripted temporary failure at " + where + MsgSuffix, TargetName: "scripted"}
